@@ -163,7 +163,9 @@ fn main() {
             // the children restoring all of P's lines; domain = P..start or ~::P. P is reached
             // through one missing edge per child, each handing down lines the others did not.
             // Index 1 is the fixed corpus case of this shape (2 children, split {0,1} / {2,3}).
-            let corpus1 = i == 1;
+            // index 2: the same history annotated in two calls (P..start, then all())
+            let corpus2 = i == 2;
+            let corpus1 = i == 1 || corpus2;
             let fork_pool = corpus1 || (!shared_root_pool && rng.chance(1, 7));
             let fork_nch = if corpus1 || rng.chance(2, 3) { 2 } else { 3 };
             let fork_len = if corpus1 { 4 } else { (fork_nch + 1 + rng.usize(4)).max(4) };
@@ -364,58 +366,86 @@ fn main() {
                 _ => (commits_of(&[start]).ancestors_range(0..1 + rng.below(3)), "depth"),
             };
 
+            // successive compute() calls on the same annotator: D1, then wider domains
+            let mut domains: Vec<Arc<R>> = vec![domain.clone()];
+            let multi = corpus2 || rng.chance(1, 5);
+            if corpus2 {
+                domains.push(R::all());
+            } else if multi {
+                let wider = match rng.below(3) {
+                    0 => R::all(),
+                    1 => domain.union(&commits_of(&[start]).ancestors_range(0..1 + rng.below(4))),
+                    _ => {
+                        let y = 1 + rng.usize(n - 1);
+                        domain.union(&commits_of(&[y]).range(&commits_of(&[start])))
+                    }
+                };
+                domains.push(wider);
+                if rng.chance(1, 2) {
+                    domains.push(R::all());
+                }
+            }
             let start_commit = store.get_commit(&ids[start]).unwrap();
+            let predicate = RevsetFilterPredicate::File(FilesetExpression::file_path(path.to_owned()));
+            type Nodes = Vec<(usize, Vec<(usize, u8)>)>;
+            type PhaseOut = (Nodes, Vec<(bool, usize, usize)>, Vec<usize>);
             let result = jjv::catch(|| {
                 let mut annotator = FileAnnotator::from_commit(&start_commit, path).block_on().unwrap();
-                annotator.compute(repo.as_ref(), &domain).block_on().unwrap();
-                let annotation = annotator.to_annotation();
-                let origins: Vec<(bool, usize, usize)> = annotation
-                    .line_origins()
-                    .map(|(o, _line)| match o {
-                        Ok(lo) => (true, pos[&lo.commit_id], lo.line_number),
-                        Err(lo) => (false, pos[&lo.commit_id], lo.line_number),
-                    })
-                    .collect();
-                let text: Vec<u8> = annotation.text().to_vec();
-                (origins, text)
+                let mut outs: Vec<PhaseOut> = vec![];
+                for dom in &domains {
+                    // the graph stream this call of process_commits walks
+                    let heads = R::commits(annotator.pending_commits().cloned().collect());
+                    let revset = heads
+                        .union(&dom.intersection(&heads.ancestors()).filtered(predicate.clone()))
+                        .evaluate(repo.as_ref())
+                        .unwrap();
+                    let raw: Vec<(CommitId, Vec<jj_lib::graph::GraphEdge<CommitId>>)> =
+                        revset.stream_graph().try_collect().block_on().unwrap();
+                    let nodes: Nodes = raw
+                        .iter()
+                        .map(|(c, es)| {
+                            (
+                                pos[c],
+                                es.iter()
+                                    .map(|e| {
+                                        (
+                                            pos[&e.target],
+                                            match e.edge_type {
+                                                GraphEdgeType::Direct => 0,
+                                                GraphEdgeType::Indirect => 1,
+                                                GraphEdgeType::Missing => 2,
+                                            },
+                                        )
+                                    })
+                                    .collect(),
+                            )
+                        })
+                        .collect();
+                    annotator.compute(repo.as_ref(), dom).block_on().unwrap();
+                    let annotation = annotator.to_annotation();
+                    let origins: Vec<(bool, usize, usize)> = annotation
+                        .line_origins()
+                        .map(|(o, _line)| match o {
+                            Ok(lo) => (true, pos[&lo.commit_id], lo.line_number),
+                            Err(lo) => (false, pos[&lo.commit_id], lo.line_number),
+                        })
+                        .collect();
+                    let mut pending: Vec<usize> = annotator.pending_commits().map(|id| pos[id]).collect();
+                    pending.sort();
+                    outs.push((nodes, origins, pending));
+                }
+                let text: Vec<u8> = annotator.to_annotation().text().to_vec();
+                (outs, text)
             });
-            let (origins, atext) = match result {
+            let (outs, atext) = match result {
                 Some(r) => r,
                 None => {
                     ctx.panicked();
                     (vec![], b"<panic>\n".to_vec())
                 }
             };
-
-            // the graph stream process_commits walks
-            let heads = commits_of(&[start]);
-            let predicate = RevsetFilterPredicate::File(FilesetExpression::file_path(path.to_owned()));
-            let revset = heads
-                .union(&domain.intersection(&heads.ancestors()).filtered(predicate))
-                .evaluate(repo.as_ref())
-                .unwrap();
-            let nodes: Vec<(CommitId, Vec<jj_lib::graph::GraphEdge<CommitId>>)> =
-                revset.stream_graph().try_collect().block_on().unwrap();
-            let nodes: Vec<(usize, Vec<(usize, u8)>)> = nodes
-                .iter()
-                .map(|(c, es)| {
-                    (
-                        pos[c],
-                        es.iter()
-                            .map(|e| {
-                                (
-                                    pos[&e.target],
-                                    match e.edge_type {
-                                        GraphEdgeType::Direct => 0,
-                                        GraphEdgeType::Indirect => 1,
-                                        GraphEdgeType::Missing => 2,
-                                    },
-                                )
-                            })
-                            .collect(),
-                    )
-                })
-                .collect();
+            let nodes: Nodes = outs.iter().flat_map(|o| o.0.clone()).collect();
+            let origins: Vec<(bool, usize, usize)> = outs.last().map(|o| o.1.clone()).unwrap_or_default();
             let mut matchings: Vec<((usize, usize), Vec<(usize, usize, usize)>)> = vec![];
             for (c, es) in &nodes {
                 for (t, _) in es {
@@ -432,8 +462,10 @@ fn main() {
                     coq::list(parents.iter(), |ps| coq::list(ps.iter(), |p| format!("{p}"))),
                     coq::list(0..n, |x| coq_lines(&text_of(x))),
                     format!("{start}"),
-                    coq::list(nodes.iter(), |(c, es)| {
-                        format!("({c}, {})", coq::list(es.iter(), |(t, k)| format!("({t}, {k})")))
+                    coq::list(outs.iter(), |o| {
+                        coq::list(o.0.iter(), |(c, es)| {
+                            format!("({c}, {})", coq::list(es.iter(), |(t, k)| format!("({t}, {k})")))
+                        })
                     }),
                     coq::list(matchings.iter(), |((c, t), rs)| {
                         format!(
@@ -441,7 +473,10 @@ fn main() {
                             coq::list(rs.iter(), |(a, b, k)| format!("({a}, {b}, {k})"))
                         )
                     }),
-                    coq::list(origins.iter(), |(ok, c, l)| format!("({}, {c}, {l})", coq::b(*ok))),
+                    coq::list(outs.iter(), |o| {
+                        coq::list(o.1.iter(), |(ok, c, l)| format!("({}, {c}, {l})", coq::b(*ok)))
+                    }),
+                    coq::list(outs.iter(), |o| coq::list(o.2.iter(), |p| format!("{p}"))),
                     coq_lines(&atext),
                 ],
             );
@@ -470,6 +505,13 @@ fn main() {
                     .collect();
                 if via.len() >= 2 && from_p.len() >= 2 {
                     ctx.count("(fork pool: omitted parent reached by >= 2 missing edges, >= 2 lines left in it)");
+                }
+            }
+            if outs.len() >= 2 {
+                ctx.count("(cases with two or three compute() calls on one annotator)");
+                let first_err = outs[0].1.iter().filter(|o| !o.0).count();
+                if first_err > 0 && n_err < first_err {
+                    ctx.count("(multi-call: a later call resolved lines the first left unresolved)");
                 }
             }
             if distinct_origins >= 3 {
